@@ -11,6 +11,7 @@ import (
 
 type Stats struct {
 	Decides, Forks, FeasQueries, FeasUnknown int
+	IntervalDecides                          int
 	FeasTime                                 time.Duration
 	Instrs                                   int
 	Funcs                                    map[string]int
@@ -39,6 +40,7 @@ type Exec struct {
 	inLazyInit  string
 	KnownIDs    map[string]bool
 	StubSets    map[string]bool
+	globalInitTried map[string]bool
 }
 
 type OKind int
